@@ -329,7 +329,7 @@ def followup_runs(out, mammoth, hrng, ctx, lines, meta, hist):
             probs += history_problems(before, after, stem, lib_value.encode("utf-8"), calls)
             if p.stdout:
                 probs.append("something was written to standard output although an output directory was given")
-            if p.stderr.decode("utf-8") != "".join(m + "\n" for m in lib_msgs):
+            if p.stderr.decode("utf-8", "replace") != "".join(m + "\n" for m in lib_msgs):
                 probs.append("standard error is not the library's messages, one per line")
         if probs:
             out.violation("; ".join(probs[:3]), case_rec, expected={"value": lib_value[:300], "messages": lib_msgs[:5], "files": sorted(set(before) | {stem + ".html"})},
@@ -524,12 +524,12 @@ def run(out, tier, seed, model_ok):
                 probs += history_problems(before, after, stem, want, seen)
                 if fmt != "markdown" and os.path.exists(html):
                     try:
-                        srcs = [dict(nn[2]).get("src") for _c, nn in HO.walk(HO.parse(open(html, "rb").read().decode("utf-8"))) if nn[0] == "el" and nn[1] == "img"]
+                        srcs = [dict(nn[2]).get("src") for _c, nn in HO.walk(HO.parse(open(html, "rb").read().decode("utf-8", "replace"))) if nn[0] == "el" and nn[1] == "img"]
                         if srcs != ["%d.%s" % (k + 1, ct.partition("/")[2]) for k, (ct, b) in enumerate(seen)]:
                             probs.append("img src values %r do not name the image files in document order" % srcs)
                     except HO.Malformed:
                         pass
-            err_lines = p.stderr.decode("utf-8")
+            err_lines = p.stderr.decode("utf-8", "replace")
             if err_lines != as_stderr("".join(m + "\n" for m in lib_msgs), asc):
                 probs.append("standard error is not the library's messages, one per line")
         if probs:
@@ -560,9 +560,9 @@ def run(out, tier, seed, model_ok):
             elif mode == "path" and os.path.exists(outpath):
                 real_files[outpath] = open(outpath, "rb").read().hex()
             model_files = {n: h for n, h in m["files"]}
-            if model_files != real_files or m["stdout"] != p.stdout.hex() or as_stderr(m["stderr"], case_rec.get("ascii_locale")) != p.stderr.decode("utf-8"):
+            if model_files != real_files or m["stdout"] != p.stdout.hex() or as_stderr(m["stderr"], case_rec.get("ascii_locale")) != p.stderr.decode("utf-8", "replace"):
                 out.violation("files / streams written by the command differ from the cliRun specification", case_rec,
-                              expected={"files": sorted(model_files), "stderr": m["stderr"][:200]}, actual={"files": sorted(real_files), "stderr": p.stderr.decode("utf-8")[:200]})
+                              expected={"files": sorted(model_files), "stderr": m["stderr"][:200]}, actual={"files": sorted(real_files), "stderr": p.stderr.decode("utf-8", "replace")[:200]})
     shutil.rmtree(base, ignore_errors=True)
     out.rule = ("`python -m mammoth.cli` run as a subprocess (UTF-8 locale) on generated documents (non-ASCII text, several images incl. an svg+xml type, warnings) x "
                 "{output path, stdout, --output-dir} x --output-format {absent, html, markdown} x --style-map present/absent (incl. form feed, U+2028, CRLF and "
@@ -633,7 +633,7 @@ def replay(out, payload, model_ok):
         out.violation("the command exited with status %d" % p.returncode, case)
     elif got != want:
         out.violation("the bytes written (%s) are not the UTF-8 encoding of the library's value (%d bytes)" % ("nothing" if got is None else "%d bytes" % len(got), len(want)), case)
-    elif p.stderr.decode("utf-8") != as_stderr("".join(m.message + "\n" for m in lib.messages), case.get("ascii_locale")):
+    elif p.stderr.decode("utf-8", "replace") != as_stderr("".join(m.message + "\n" for m in lib.messages), case.get("ascii_locale")):
         out.violation("standard error is not the library's messages, one per line", case)
     elif outdir and recreated:
         # every file of the directory, byte by byte
